@@ -283,36 +283,32 @@ example :
     let q := ({ states := [0, 3, 3, 4], controls := [1, 2, 1], steps := [3, 0, 1] } : Path Nat Nat).interpolate stepN
     q.states = [0, 1, 2, 3, 3, 4] ∧ q.controls = [1, 1, 1, 2, 1] ∧ q.steps = [1, 1, 1, 0, 1] := by decide
 
-/-- **check is sound**: with exact state comparison, a path with at least one control that
-`PathControl::check` accepts starts in a valid state and replays. -/
+/-- **check is sound**: with exact state comparison, a path that `PathControl::check` accepts starts in a valid state and
+replays — including the single-state path without controls (what a planner reports when a start state already satisfies the
+goal; until round 10 the statement excluded it by a hypothesis `p.controls ≠ []` that was not needed). -/
 theorem check_sound [DecidableEq S] (step : S → U → S) (valid : S → Bool) (p : Path S U)
     (s0 : S) (rest : List S) (hs : p.states = s0 :: rest) (hl1 : rest.length = p.controls.length)
-    (hl2 : p.steps.length = p.controls.length) (hne : p.controls ≠ [])
+    (hl2 : p.steps.length = p.controls.length)
     (hc : p.check step valid (fun a b => decide (a = b)) = true) :
     valid s0 = true ∧ ReplayOK step valid s0 (segs rest p.controls p.steps) := by
-  obtain ⟨a, b, c⟩ := maps_segs rest p.controls p.steps hl1 hl2
-  have hemp : p.controls.isEmpty = false := by
-    cases hcs : p.controls with
-    | nil => exact absurd hcs hne
-    | cons _ _ => rfl
-  unfold Path.check at hc
-  rw [hemp] at hc
-  simp only [Bool.false_eq_true, if_false] at hc
-  rw [hs] at hc
-  have hc' : checkLoop step valid (fun a b => decide (a = b))
-      (s0 :: (segs rest p.controls p.steps).map (·.2.2)) ((segs rest p.controls p.steps).map (·.1))
-      ((segs rest p.controls p.steps).map (·.2.1)) = true := by
-    rw [a, b, c]; exact hc
-  obtain ⟨h1, h2⟩ := checkLoop_sound step valid _ s0 hc'
-  refine ⟨h2 ?_, h1⟩
-  intro hnil
-  rw [hnil] at b
-  exact hne b.symm
+  cases hcs : p.controls with
+  | cons u us => exact hcs ▸ check_sound_ne step valid p s0 rest hs hl1 hl2 (by rw [hcs]; simp) hc
+  | nil =>
+    rw [hcs] at hl1
+    have hr : rest = [] := List.length_eq_zero_iff.mp hl1
+    subst hr
+    unfold Path.check at hc
+    rw [hcs, hs] at hc
+    simp only [List.isEmpty_nil, if_true] at hc
+    exact ⟨hc, by cases p.steps <;> exact True.intro⟩
 
 /-- the premises of `interpolate_preserves_replay` / `check_complete` are satisfiable -/
 example : ReplayOK stepN validN 0 (segs [3, 3, 4] [1, 2, 1] [3, 0, 1]) :=
-  (check_sound stepN validN ⟨[0, 3, 3, 4], [1, 2, 1], [3, 0, 1]⟩ 0 [3, 3, 4] rfl rfl rfl
-    (by decide) (by decide)).2
+  (check_sound stepN validN ⟨[0, 3, 3, 4], [1, 2, 1], [3, 0, 1]⟩ 0 [3, 3, 4] rfl rfl rfl (by decide)).2
+
+/-- the single-state path: accepted iff its state is valid -/
+example : ({ states := [3], controls := [], steps := [] } : Path Nat Nat).check stepN validN (fun a b => decide (a = b)) = true ∧
+    ({ states := [12], controls := [], steps := [] } : Path Nat Nat).check stepN validN (fun a b => decide (a = b)) = false := by decide
 
 /-- **check is complete**: a well-formed path that replays from a valid first state is accepted
 (validity of the other states follows: a 0-step segment repeats its start state, a longer one
@@ -338,14 +334,14 @@ theorem check_complete [DecidableEq S] (step : S → U → S) (valid : S → Boo
     rw [a, b, c, hcs] at this
     rw [hs]; exact this
 
-/-- hence, for a well-formed path with at least one control, **`check` decides exactly
+/-- hence, for a well-formed path (with or without controls), **`check` decides exactly
 "first state valid and the path replays"** -/
 theorem check_iff [DecidableEq S] (step : S → U → S) (valid : S → Bool) (p : Path S U)
     (s0 : S) (rest : List S) (hs : p.states = s0 :: rest) (hl1 : rest.length = p.controls.length)
-    (hl2 : p.steps.length = p.controls.length) (hne : p.controls ≠ []) :
+    (hl2 : p.steps.length = p.controls.length) :
     p.check step valid (fun a b => decide (a = b)) = true ↔
       (valid s0 = true ∧ ReplayOK step valid s0 (segs rest p.controls p.steps)) :=
-  ⟨check_sound step valid p s0 rest hs hl1 hl2 hne,
+  ⟨check_sound step valid p s0 rest hs hl1 hl2,
    fun h => check_complete step valid p s0 rest hs hl1 hl2 h.2 h.1⟩
 
 example : ({ states := [0, 3, 3, 4], controls := [1, 2, 1], steps := [3, 0, 1] } : Path Nat Nat).check
